@@ -243,29 +243,36 @@ def run(rep, tier, seed, model_ok=True, effort=1):
     # the line carrying the literal text is rewritten, a near-miss line stays as it is
     from . import project
     nupd = (25 if tier == "quick" else 400) * effort
-    for _ in range(nupd):
-        lit = "".join(r.choice(ATOMS if r.random() < 0.5 else list("|.+*?(){}-^$ ab1#;=\"'")) for _ in range(r.choice([1, 2, 3, 5, 8])))
+    fixed = [(l_, c_) for l_ in ("100%", "a%20b", "50%%", "x|y", "(c)", "a.b*") for c_ in (False, True)]
+    for k_ in range(nupd + len(fixed)):
+        if k_ < len(fixed):
+            lit, cfg_style = fixed[k_]
+        else:
+            lit = "".join(r.choice(ATOMS if r.random() < 0.5 else list("|.+*?(){}-^$ ab1#;=%\"'")) for _ in range(r.choice([1, 2, 3, 5, 8])))
+            cfg_style = r.random() < 0.4      # the same through a setup.cfg (ini syntax: no quoting, no interpolation)
         # inside a longer pattern ^ and $ are the recorded finding; a comma, quote or backslash inside an array string trips the (third-party,
         # unmodelled) toml reader, not bumpver
         if known_class(lit) or lit[-1:].isdigit() or lit.strip() != lit or any(c in lit for c in "{}^$,\"'\\"):
             continue
+        if cfg_style and (lit[:1] in "#;[" or "=" in lit or ":" in lit or " #" in lit or " ;" in lit):
+            continue   # ini syntax of its own: comment prefixes, key delimiters
         text = literal_text(lit)[0]
         miss = next((m_ for m_ in near_misses(r, text) + case_flips(text) if text not in m_ and m_.strip() == m_), None)
         pat = lit + " {version}"
         content = "head\n%s 1.2.3\n%s\ntail\n" % (text, ("%s 1.2.3" % miss) if miss else "filler")
-        prj = project.TempProject("MAJOR.MINOR.PATCH", "1.2.3", files={"f.txt": [pat]}, contents={"f.txt": content})
+        prj = project.TempProject("MAJOR.MINOR.PATCH", "1.2.3", files={"f.txt": [pat]}, contents={"f.txt": content}, fmt="setup.cfg" if cfg_style else "bumpver.toml")
         with prj:
             if prj.cfg_error(impl):
-                rep.violation("configuration with a literal search pattern is rejected", input=dict(pattern=pat, error=str(prj.cfg_error(impl))[:200]), **{"class": "compile-error"})
+                rep.violation("configuration with a literal search pattern is rejected", input=dict(pattern=pat, config="setup.cfg" if cfg_style else "bumpver.toml", error=str(prj.cfg_error(impl))[:200]), **{"class": "compile-error"})
                 continue
             code, out, logs, exc = prj.run(impl, ["update", "--no-fetch", "--patch"])
             got = prj.snapshot().get("f.txt", b"").decode("utf-8", "replace")
         want = "head\n%s 1.2.4\n%s\ntail\n" % (text, ("%s 1.2.3" % miss) if miss else "filler")
-        rep.case(("update-literal", lit), nontrivial=any(c in META for c in lit))
+        rep.case(("update-literal", lit, cfg_style), nontrivial=any(c in META for c in lit))
         rep.count("update-literal-runs")
         if code != 0 or got != want:
             rep.violation("`bumpver update` with a literal search pattern: %s" % ("exit %s" % code if code != 0 else "the file is not rewritten exactly at the line carrying the literal text"),
-                          input=dict(pattern=pat, literal=lit, file_before=content, file_after=got, expected=want, logs=logs[-3:]), **{"class": "update-literal"})
+                          input=dict(pattern=pat, literal=lit, config="setup.cfg" if cfg_style else "bumpver.toml", file_before=content, file_after=got, expected=want, logs=logs[-3:]), **{"class": "update-literal"})
     # a sample through the CLI
     import tempfile, os
     for lit in ["a|b", "x.y", "(1)+2", "c{2}", "q?", "a*b", "p-q", "\\[t\\]"]:
